@@ -178,6 +178,18 @@ class Ctx:
                            text=True, errors="replace", input=stdin)
         if p.returncode == 124 or p.returncode == 137:
             raise Infra("harness %s timed out after %ss\n%s" % (args[:2], timeout, p.stdout[-3000:]))
+        if not os.path.exists(outp) and re.search(r"^(panic:|fatal error:)", p.stdout, re.M) \
+                and "github.com/go-spring/log" in p.stdout:
+            # the real code crashed the process (panic on a library goroutine, deadlock, ...):
+            # that is an observation about the implementation, not an infrastructure failure
+            m = re.search(r"^(panic:|fatal error:).*$", p.stdout, re.M)
+            frames = re.findall(r"^(github\.com/go-spring/log[^\s(]*)", p.stdout, re.M)
+            return {"evaluations": 1, "distinct_nontrivial": 0, "samples": [],
+                    "violations": [{"key": "process-crash:" + (frames[0] if frames else "?"),
+                                    "what": "the harness process died inside go-spring/log: %s; first "
+                                            "library frames: %s" % (m.group(0)[:200], frames[:4]),
+                                    "case": {"args": args[:2], "output_tail": p.stdout[-1500:]}}],
+                    "_stdout": p.stdout[-2000:]}
         if not os.path.exists(outp):
             raise Infra("harness %s produced no result (rc=%s)\n%s" % (args[:2], p.returncode,
                                                                        p.stdout[-6000:]))
